@@ -131,4 +131,74 @@ theorem emit_wf (h : Heap) (shared : Nat → Bool) : ∀ fuel : Nat,
               subst k1
               simp [wf_append, knownAfter_append, w1, w2, k2]
 
+/-- more fuel never changes a result: what the three emission functions return with some fuel they
+    return with one more -/
+theorem emit_fuel_succ (h : Heap) (shared : Nat → Bool) : ∀ fuel : Nat,
+    (∀ named i r, emitPtr h shared fuel named i = some r → emitPtr h shared (fuel + 1) named i = some r) ∧
+    (∀ named i r, emitBody h shared fuel named i = some r → emitBody h shared (fuel + 1) named i = some r) ∧
+    (∀ named es r, emitEdges h shared fuel named es = some r → emitEdges h shared (fuel + 1) named es = some r) := by
+  intro fuel
+  induction fuel with
+  | zero => refine ⟨?_, ?_, ?_⟩ <;> intro a b c hh <;> simp [emitPtr, emitBody, emitEdges] at hh
+  | succ f ih =>
+    obtain ⟨ihP, ihB, ihE⟩ := ih
+    refine ⟨?_, ?_, ?_⟩
+    · intro named i r hh
+      simp only [emitPtr] at hh ⊢
+      by_cases hs : shared i = true
+      · simp only [hs, if_true] at hh ⊢
+        by_cases hn : named.contains i = true
+        · simp only [hn, if_true] at hh ⊢; exact hh
+        · simp only [hn, Bool.false_eq_true, if_false] at hh ⊢
+          cases hb : emitBody h shared f (i :: named) i with
+          | none => simp [hb] at hh
+          | some rb => rw [hb] at hh; rw [ihB _ _ _ hb]; exact hh
+      · simp only [hs, Bool.false_eq_true, if_false] at hh ⊢
+        exact ihB _ _ _ hh
+    · intro named i r hh
+      simp only [emitBody] at hh ⊢
+      cases h1 : emitEdges h shared f named (h i).ptrs with
+      | none => simp [h1] at hh
+      | some r1 =>
+        obtain ⟨o1, n1⟩ := r1
+        simp only [h1] at hh
+        simp only [ihE _ _ _ h1]
+        cases hk : (h i).kids with
+        | none => simp only [hk] at hh ⊢; exact hh
+        | some ks =>
+          simp only [hk] at hh ⊢
+          cases h2 : emitEdges h shared f n1 ks with
+          | none => simp [h2] at hh
+          | some r2 =>
+            obtain ⟨o2, n2⟩ := r2
+            simp only [h2] at hh
+            simp only [ihE _ _ _ h2]
+            exact hh
+    · intro named es r hh
+      cases es with
+      | nil => simp only [emitEdges] at hh ⊢; exact hh
+      | cons e es =>
+        cases e with
+        | none =>
+          simp only [emitEdges] at hh ⊢
+          cases h1 : emitEdges h shared f named es with
+          | none => simp [h1] at hh
+          | some r1 => rw [h1] at hh; rw [ihE _ _ _ h1]; exact hh
+        | some j =>
+          simp only [emitEdges] at hh ⊢
+          cases h1 : emitPtr h shared f named j with
+          | none => simp [h1] at hh
+          | some r1 =>
+            obtain ⟨o1, n1⟩ := r1
+            simp only [h1] at hh
+            simp only [ihP _ _ _ h1]
+            cases h2 : emitEdges h shared f n1 es with
+            | none => simp [h2] at hh
+            | some r2 => rw [h2] at hh; rw [ihE _ _ _ h2]; exact hh
+
+theorem emitPtr_fuel_add (h : Heap) (shared : Nat → Bool) (fuel : Nat) (named : List Nat) (i : Nat) (r : List GEv × List Nat)
+    (hh : emitPtr h shared fuel named i = some r) : ∀ k, emitPtr h shared (fuel + k) named i = some r
+  | 0 => hh
+  | k + 1 => (emit_fuel_succ h shared (fuel + k)).1 named i r (emitPtr_fuel_add h shared fuel named i r hh k)
+
 end CE.Marshal.Graph
